@@ -37,6 +37,33 @@ func vxH_C07_rounds() {
 	K.n, J.n = 1, 1
 	K.b[0], J.b[0] = 'k', 'j'
 	kb, jb := vxKeyBytes(K), vxKeyBytes(J)
+	// optionally a big first round, so that later rounds are compacted
+	// PARTIALLY (splice point > 0) under CompactionAllow
+	if vxChoose(2) == 1 {
+		rounds++
+		b, berr := coll.NewBatch(8, 64)
+		vxAssert("newbatch-ok", berr == nil)
+		var big []vxEnt
+		for _, kb := range []byte{'a', 'b', 'c', 'd'} {
+			var e vxEnt
+			e.op = OperationSet
+			e.k.n, e.k.b[0] = 1, kb
+			e.v.n, e.v.b[0] = 1, vxU8()
+			big = append(big, e)
+		}
+		vxFillBatch(b, big)
+		ref.layers = append(ref.layers, big)
+		cb, cerr := b.NewChildCollectionBatch("a", BatchOptions{TotalOps: 2, TotalKeyValBytes: 16})
+		vxAssert("childbatch-ok", cerr == nil)
+		cents := vxFixedSet()
+		vxFillBatch(cb, cents)
+		ref.kids["a"] = vxNewNode()
+		ref.kids["a"].layers = append(ref.kids["a"].layers, cents)
+		vxAssert("executebatch-ok", coll.ExecuteBatch(b, WriteOptions{}) == nil)
+		b.Close()
+		vxDrain(coll)
+		rounds--
+	}
 	for r := 0; r < rounds; r++ {
 		b, berr := coll.NewBatch(4, 64)
 		vxAssert("newbatch-ok", berr == nil)
@@ -77,6 +104,7 @@ func vxH_C07_rounds() {
 				}
 			}
 		}
+		vxObserveU64("partial-compactions", store.totCompactionsPartial)
 		ss.Close()
 		cs, cerr := coll.Snapshot()
 		vxAssert("coll-snapshot-ok", cerr == nil)
